@@ -5,8 +5,13 @@ import json, glob, os, re
 V = os.path.dirname(os.path.dirname(os.path.abspath(__file__)))
 d = json.load(open(os.path.join(V, "known_findings.json")))
 fx = ["| property | commit | what failed |", "|----------|--------|-------------|"]
+seen = set()
 for f in d["findings"]:
     if f["status"] == "fixed":
+        # one row per repair: several signatures of one commit share its description
+        if (f["property"], f.get("commit")) in seen:
+            continue
+        seen.add((f["property"], f.get("commit")))
         fx.append("| %s | %s | %s |" % (f["property"], f.get("commit", "?"), f["what"].replace("|", "/").replace("\n", " ")[:300]))
 sd = ["| seed | needs | result |", "|------|-------|--------|"]
 for p in sorted(glob.glob(os.path.join(V, "seeded", "C*-*"))):
